@@ -23,12 +23,17 @@ TRUSTED_BASE = ["Coq 8.16.1 kernel (coqc), vm_compute only for closed witnesses"
                 "Extraction with ExtrOcamlBasic, no Extract Constant; OCaml 4.13.1",
                 "hand-written model coq/C28/LoggerQ.v of runtime/logger.cpp:60-140 and include/fix8/logger.hpp:296-312 (FIX8_MPMC_FF branch), tied by differential execution; coq/C28/LoggerQOrig.v / LoggerQMid.v = the code before the repairs / between 4b85524 and aa7ec53, used only for witness theorems",
                 "the queue abstraction (atomic FIFO) rests on property C30 (coq/C30), which is cited, not re-proved",
-                "ocaml/prelude.ml + ocaml/c28_driver.ml (parsing, schedule inputs taken from the observed file), harness/h_c28.cpp, vlib"]
+                "ocaml/prelude.ml + ocaml/c28_driver.ml (parsing, schedule inputs taken from the observed file), harness/h_c28.cpp "
+                "(incl. the extraction of sequence / direction / text from XML lines and from text lines with further fields: the "
+                "model formats only these three; timestamps, thread codes, level names and location strings are not modelled), vlib"]
 ASSUMPTIONS = ["ff::uMPMC_Ptr_Queue behaves as an atomic FIFO (C30); try_push never fails (no allocation failure)",
                "sequentially consistent interleaving of the modelled atomic actions; _stopping, _sequence and the stream are "
                "only touched as modelled (set_levels/set_flags are not called concurrently)",
                "all producers have finished before stop() is called (the property speaks of lines submitted before the stop)"]
-RULE = ("1..8 producer threads x 0..200 submit calls with levels Debug..Fatal against level masks 0..31 (none, all, single, random), "
+RULE = ("FileLogger in the basic layout (sequence [direction] text) for most cases, plus a few dozen cases each for XmlFileLogger, "
+        "PipeLogger (|cat > file) and FileLogger with further fields (mstart, sstart, thread, timestamp, minitimestamp, level, location; "
+        "send() with and without a file/line string): there the harness extracts sequence, direction and text from every written line "
+        "(a line from which they cannot be extracted fails the oracle). 1..8 producer threads x 0..200 submit calls with levels Debug..Fatal against level masks 0..31 (none, all, single, random), "
         "three quarters of the cases with an explicit val argument per call drawn from {0, 1, other} (all equal, alternating, "
         "per producer, random) on a logger with or without the direction flag (sequence numbering: one series / two series), "
         "texts carrying producer and call number; stop() (a) by the producer finishing last, (b) 0..2000 us after the producers "
@@ -109,6 +114,40 @@ def rand_vals(rng, progs):
     return out
 
 
+LAYOUT_FLAGS = "msttTMlL".replace("tt", "t")
+
+
+def rand_layout(rng):
+    m = rng.randrange(6)
+    if m == 0:
+        return "-"
+    if m == 1:
+        return "L"
+    if m == 2:
+        return rng.choice(["tL", "lL", "TL", "ML", "msL"])
+    if m == 3:
+        return "mstTMlL"
+    return "".join(f for f in "mstTMlL" if rng.random() < 0.5) or "-"
+
+
+def mk_kind(rng, kind, mode, mask, delay, progs, cls):
+    """a case for another logger kind / line layout: X = XmlFileLogger, P = PipeLogger, F = FileLogger with more fields"""
+    locm = rng.randrange(4)
+    locs = []
+    for p in progs:
+        n = 0 if p == "-" else len(p)
+        if locm == 0:
+            v = "0" * n
+        elif locm == 1:
+            v = "1" * n
+        else:
+            v = "".join(rng.choice("01") for _ in range(n))
+        locs.append(v or "-")
+    layout = "-" if kind == "P" and rng.random() < 0.5 else rand_layout(rng)
+    return Case("%s %d %d %s %d %s %s %s %s" % (mode, mask, delay, ",".join(progs), rng.randrange(2),
+                                                ",".join(rand_vals(rng, progs)), kind, layout, ",".join(locs)), cls)
+
+
 def mk(mode, mask, delay, progs, cls, rng=None):
     line = "%s %d %d %s" % (mode, mask, delay, ",".join(progs))
     if rng is not None and rng.random() < 0.75:
@@ -135,6 +174,13 @@ def gen_one(rng, cls, big=True):
         n = rng.randrange(1, 4)
         mask = rng.choice([0, 31, 1, 2, 4, 8, 16, 28, 3, 30])
         return mk(rng.choice("cab"), mask, 100, ["".join(str(rng.randrange(5)) for _ in range(rng.randrange(5, 30))) for _ in range(n)], cls, rng)
+    if cls in ("xml", "layout", "pipe"):
+        kind = {"xml": "X", "layout": "F", "pipe": "P"}[cls]
+        n = rng.randrange(1, 5)
+        if rng.random() < 0.5:
+            mask = 31
+        progs = [rand_prog(rng, rng.randrange(1, 25), mask) for _ in range(n)]
+        return mk_kind(rng, kind, rng.choice("cab"), mask, rng.choice([0, 100, 500]), progs, cls)
     if cls == "empty":
         n = rng.randrange(1, 4)
         progs = [rand_prog(rng, rng.randrange(2, 12), mask, 0.15) for _ in range(n)]
@@ -144,7 +190,7 @@ def gen_one(rng, cls, big=True):
     raise ValueError(cls)
 
 
-CLASSES = ["single-c", "multi-c", "stop-a", "stop-b", "single-c", "multi-c", "stop-a", "levels", "stop-b", "empty"]
+CLASSES = ["single-c", "multi-c", "stop-a", "stop-b", "xml", "multi-c", "layout", "levels", "stop-b", "empty", "xml", "pipe"]
 
 
 def gen_cases(rng, tier):
@@ -152,8 +198,10 @@ def gen_cases(rng, tier):
     cs = [Case("c 18 0 101,14", "fixed"), Case("c 31 0 -", "fixed"), Case("a 0 0 123,-", "fixed"),
           Case("c 31 0 1111,222 1 0120,101", "fixed"), Case("c 31 0 1111,222 0 0120,101", "fixed"),
           Case("c 2 0 1111 0 0101", "fixed"), Case("a 31 0 11 1 -", "fixed"),
+          Case("c 31 0 1111,222 1 0120,101 X tL 0101,111", "xml"), Case("c 31 0 11 0 00 X L 00", "xml"),
+          Case("c 31 0 112 1 010 F mstTMlL 010", "layout"), Case("c 31 0 111,22 1 010,11 P - -", "pipe"),
           Case("c 2 0 1b1", "empty-c"), Case("c 31 0 0a,111", "empty-c"), Case("c 1 0 1b1,22", "fixed")]
-    n = 2500 if thorough else 230
+    n = 2500 if thorough else 300
     for i in range(n):
         cs.append(gen_one(rng, CLASSES[i % len(CLASSES)], big=thorough or i % 4 == 0))
     # 8 threads x 200 lines once
